@@ -1,5 +1,6 @@
 """C19 — no reloadable or remote input can crash the process."""
 import collections
+import concurrent.futures
 import copy
 import json
 import os
@@ -16,7 +17,15 @@ HINT = ("on this input the implementation behaves like the model without the che
         "the code before fixes/C19-1.patch, C19-2.patch, C19-3.patch")
 HINT_PTR = ("on this input the implementation behaves like the model of a load that decodes the document into a pointer "
             "(loadCreds false): a null document is accepted as 'no credentials at all' (c19_redis_credentials_never_panic_iff)")
-NOISE = ("detail", "detail0", "stack", "why", "confirmed_alone", "head")
+HINT_K8S = ("on this input the implementation behaves like the model without the checks in updateStatus "
+            "(StatusGuards.original), i.e. like the code before fixes/C19-4.patch")
+HINT_RETURNING = ("the implementation behaves like the model of an event loop that registers a removed / renamed file again "
+                  "and RETURNS when that fails (WatchLoop ⟨true, true⟩, c19_watcher_returning_loop_dies)")
+HINT_FOLLOWING = ("the implementation behaves like the model of an event loop that registers a replaced file again "
+                  "(WatchLoop.renew): more notifications than the model of the code predicts")
+HINT_COMM = ("the implementation behaves like the model of a fetch that reports a body which broke off as a "
+             "communication error (pollEndpoint .communication, c19_partial_response_keeps_iff)")
+NOISE = ("detail", "detail0", "stack", "why", "confirmed_alone", "head", "rerun_alone")
 ENV = None
 
 
@@ -66,6 +75,44 @@ def run_impl(exe, cases, timeout=900):
     return res
 
 
+WAITING_OPS = ("watchfiles", "k8s")      # cases that mostly wait (fsnotify, informer): several processes side by side
+
+
+def run_impl_side_by_side(exe, cases, workers=4):
+    if len(cases) < 2 * workers:
+        return run_impl(exe, cases)
+    chunks = [list(range(k, len(cases), workers)) for k in range(workers)]
+    res = [None] * len(cases)
+    with concurrent.futures.ThreadPoolExecutor(workers) as pool:
+        for idx, out in zip(chunks, pool.map(lambda ix: run_impl(exe, [cases[k] for k in ix]), chunks)):
+            for k, r in zip(idx, out):
+                res[k] = r
+    return res
+
+
+def expand_sweeps(cases, impl, model):
+    """a remote case with "cuts" is one fetch per offset: each becomes a case of its own (with the expectation the
+    property has for that offset), so that it is judged, counted, reported and replayed like any other"""
+    if not any(c.get("op") == "remote" and "cuts" in c for c in cases):
+        return cases, impl, model
+    oc, oi, om = [], [], []
+    for c, i, m in zip(cases, impl, model):
+        if c.get("op") == "remote" and "cuts" in c and isinstance(i, dict) and isinstance(i.get("cls"), list):
+            lo, _, step = c["cuts"]
+            for j, cls in enumerate(i["cls"]):
+                cut = lo + j * max(step, 1)
+                cc = {k: v for k, v in c.items() if k != "cuts"}
+                cc.update({"cut": cut, "len": i.get("len"), "expect": G.transport_expect(c, cut, i.get("len", 0))})
+                oc.append(cc)
+                oi.append({"cls": "panic", "detail": cls[7:]} if cls.startswith("panic") else {"cls": cls})
+                om.append(None)
+        else:
+            oc.append(c)
+            oi.append(i)
+            om.append(m)
+    return oc, oi, om
+
+
 def run_model(cases):
     return vlib.run_cases(vlib.driver_cmd(), cases)
 
@@ -96,6 +143,12 @@ def canon_impl(case, i):
     i = strip(i)
     if case["op"] == "ruleset" and "state1" in i:
         i = dict(i, state0=ids_of(i["state0"]), state1=ids_of(i["state1"]))
+    if case["op"] == "watchfiles":
+        i = {"alive": i.get("alive"), "observed": i.get("observed")}
+    if case["op"] == "endpoint":
+        i = {"alive": i.get("alive"), "polls": i.get("polls"), "rules": [ids_of(a) for a in i.get("answers", [])]}
+    if case["op"] == "k8s":
+        i = {"alive": i.get("alive"), "handled": i.get("handled")}
     return i
 
 
@@ -119,11 +172,19 @@ def outcome_of(case, i):
     if case["op"] == "rulehist":
         outs = i.get("outcomes", [])
         return "panic" if "panic" in outs else ("rejected" if "error" in outs else "ok")
+    if case["op"] == "watchfiles":
+        return "stopped" if "timeout" in i else "alive"
+    if case["op"] == "endpoint":
+        polls = i.get("polls", [])
+        return "panic" if "panic" in polls else ("kept" if "kept" in polls else "applied")
+    if case["op"] == "k8s":
+        return "stopped" if i.get("timeout") else "alive"
     return i.get("reload") or i.get("load") or i.get("cls") or ("alive" if i.get("alive") else "dead")
 
 
 def modelled(case):
-    return case["op"] in ("material", "ruleset", "watch", "provider", "serve", "creds") and not case.get("judge_only")
+    return case["op"] in ("material", "ruleset", "watch", "provider", "serve", "creds", "watchfiles", "endpoint",
+                          "k8s") and not case.get("judge_only")
 
 
 def nontrivial(case):
@@ -143,11 +204,20 @@ def nontrivial(case):
         return len(case["contents"]) > 1
     if op == "rulehist":
         return any(s.get("kind") != "good" for s in case["steps"])
+    if op == "watchfiles":
+        return any(s["do"] not in ("write", "rewrite", "register") for s in case["steps"])
+    if op == "endpoint":
+        return any(s.get("damage") or (s.get("resp") or {}).get("kind") != "body"
+                   or (s.get("resp") or {}).get("content", {}).get("kind") != "ruleset" for s in case["steps"])
+    if op == "k8s":
+        return bool(case.get("unreachable")) or any(
+            s.get("patch") not in (None, [], ["200"]) or s["obj"].get("active_in") not in ("0/0", "1/1")
+            for s in case["steps"])
     return op == "raw"
 
 
 def slim(case):
-    return {k: v for k, v in case.items() if k not in ("label", "accepts", "compiles", "expect_states")}
+    return {k: v for k, v in case.items() if k not in ("label", "accepts", "compiles", "expect_states", "expect")}
 
 
 # ---------------------------------------------------------------------------------------------------------------
@@ -177,6 +247,14 @@ def judge_cases(cases, impl):
             for n, o in enumerate(i["outcomes"]):
                 if n + 1 < len(i.get("answers", [])):
                     ask(k, n, i["answers"][n], o, i["answers"][n + 1])
+        elif c["op"] == "endpoint" and "polls" in i:
+            # one question per poll: a poll the provider did not act upon (fetch failed and everything left alone,
+            # rule set refused by the processor) is a rejected reload
+            for n, o in enumerate(i["polls"]):
+                if n + 1 < len(i.get("answers", [])):
+                    rejected = o == "kept" or o.endswith(":refused")
+                    ask(k, n, i["answers"][n], "panic" if o == "panic" else ("error" if rejected else "ok"),
+                        i["answers"][n + 1])
     return qs, idx
 
 
@@ -211,7 +289,11 @@ def verdict(case, i, m, admissible):
     if crashed(i):
         what = {"material": "reading key / trust material", "ruleset": "loading a rule set",
                 "watch": "a file watcher notification", "provider": "a rule file event",
-                "serve": "a request", "remote": "a remote response", "raw": "a request"}[op]
+                "serve": "a request", "remote": "a remote response", "raw": "a request",
+                "k8s": "a RuleSet resource event (kubernetes provider: the handlers run on the informer's goroutine, "
+                       "where client-go's HandleCrash panics again)",
+                "watchfiles": "operations on watched files", "endpoint": "a poll of a rule set endpoint",
+                "creds": "a credentials file", "rulehist": "a rule file history"}[op]
         return f"the process dies on {what}", True, "crash"
     if op == "creds" and isinstance(i, dict):
         if i.get("timeout"):
@@ -257,6 +339,54 @@ def verdict(case, i, m, admissible):
                 return (f"a rejected rule file change, {where}, changed what requests are answered with: "
                         + "; ".join(diff)[:300]), True, "state"
         return None
+    if op == "watchfiles" and isinstance(i, dict):
+        mo = (vlib.res_of(m) or {}).get("observed", []) if m is not None else []
+        extra = None
+        for n, obs in enumerate(i.get("observed", [])):
+            want = mo[n] if n < len(mo) else None
+            if want is None:
+                continue
+            step = case["steps"][n]
+            where = f"step {n + 1} ('{step['do']}'" + (f" of watched file {step['file']}" if step["file"] >= 0 else "") + ")"
+            if len(want) != len(obs) or any((a == "absent") != (b == "absent") for a, b in zip(want, obs)):
+                return f"the files are not where the history puts them after {where}: {obs} vs {want}", False, "harness"
+            for y, (a, b) in enumerate(zip(want, obs)):
+                if a == "delivered" and b == "silent":
+                    lim = case.get("limit_ms", 12000) / 1000
+                    return (f"after {where} a change of watched file {y} was not delivered to its listener within "
+                            f"{lim:g} s (the watcher goroutine has stopped, or dropped a file it has to watch); "
+                            f"observed per file {obs}, expected {want}"), True, "stopped"
+                if a == "silent" and b == "delivered" and extra is None:
+                    extra = (f"implementation and model differ: after {where} a change of file {y} is delivered to its "
+                             f"listener, the model of the code says the watch on it is gone; observed {obs}, model {want}")
+        if extra:
+            return extra, False, "model"
+        return None
+    if op == "endpoint" and isinstance(i, dict):
+        polls, answers = i.get("polls", []), i.get("answers", [])
+        for n, o in enumerate(polls):
+            step = case["steps"][n]
+            size = len(step.get("body", ""))
+            where = (f"poll {n + 1} (status {step.get('status')}, " + (
+                f"{step['damage']}: {step.get('cut')} of {size} bytes of the body" if step.get("damage") else "complete") + ")")
+            if o == "panic":
+                return f"a poll of the rule set endpoint panics, {where}: {str(i.get('detail'))[:200]}", True, "panic"
+            if n + 1 >= len(answers):
+                continue
+            if step.get("broken") and answers[n + 1] != answers[n]:
+                diff = [f"{p}: {b} -> {a}" for p, b, a in zip(case["probes"], answers[n], answers[n + 1]) if a != b]
+                return (f"a PARTIALLY RECEIVED rule set changed the rules in force, {where}: the provider answered "
+                        f"with '{o}' instead of rejecting the reload; lookups " + "; ".join(diff)[:300]), True, "state"
+            if isinstance(admissible, dict) and admissible.get(n) is False:
+                diff = [f"{p}: {b} -> {a}" for p, b, a in zip(case["probes"], answers[n], answers[n + 1]) if a != b]
+                return (f"a rejected poll of the rule set endpoint ('{o}'), {where}, changed the rules in force: "
+                        + "; ".join(diff)[:300]), True, "state"
+            if "panic" in answers[n + 1]:
+                return f"a lookup panics after {where}", True, "panic"
+    if op == "k8s" and isinstance(i, dict):
+        if i.get("timeout"):
+            return ("an event of the kubernetes informer was not handled within 12 s (informer stopped?): "
+                    + str(i.get("timeout"))), True, "stopped"
     if op in ("material", "ruleset"):
         for phase in ("start", "reload", "load"):
             if i.get(phase) == "panic":
@@ -295,6 +425,10 @@ def verdict(case, i, m, admissible):
         if i.get("cls") == "panic":
             return f"a remote response panics the {case['mech']} mechanism: {str(i.get('detail'))[:200]}", True, "panic"
         if case.get("expect") and i.get("cls") != case["expect"]:
+            if case["kind"].startswith("transport:"):
+                return (f"{case['mech']}: the {case.get('doc')} of which {case.get('cut')} of {case.get('len')} bytes "
+                        f"arrive ({case['damage']}) ended with '{i.get('cls')}', expected '{case['expect']}'"), \
+                    case["expect"] == "error", "expect"
             return (f"{case['mech']}: {case['kind']} input ended with '{i.get('cls')}', expected "
                     f"'{case['expect']}'"), case["expect"] == "error", "expect"
         return None
@@ -309,6 +443,30 @@ def verdict(case, i, m, admissible):
 def like_original(case, i, m):
     return (isinstance(m, dict) and "stats" in m and "orig" in m["stats"]
             and vlib.canon(canon_impl(case, i)) == vlib.canon(m["stats"]["orig"]))
+
+
+def hint_for(case, i, m):
+    """the named variant of the model the implementation coincides with on this input, if any"""
+    if not (isinstance(m, dict) and "stats" in m):
+        return None
+    ci = vlib.canon(canon_impl(case, i))
+    st = m["stats"]
+    if case["op"] == "watchfiles":
+        # the harness stops a history at the first expectation that is not met
+        n = len((canon_impl(case, i) or {}).get("observed") or [])
+        for name, hint in (("returning", HINT_RETURNING), ("following", HINT_FOLLOWING)):
+            v = st.get(name)
+            if isinstance(v, dict) and n and vlib.canon(dict(v, observed=v["observed"][:n])) == ci:
+                return hint
+        return None
+    if case["op"] == "endpoint" and "communication" in st and vlib.canon(st["communication"]) == ci:
+        return HINT_COMM
+    if case["op"] == "k8s" and "orig" in st and (crashed(i) or vlib.canon(st["orig"]) == ci) \
+            and st["orig"].get("alive") is False:
+        return HINT_K8S
+    if "orig" in st and vlib.canon(st["orig"]) == ci:
+        return HINT
+    return None
 
 
 def like_pointer(case, i, m):
@@ -351,8 +509,13 @@ def with_parts(case, parts):
 def shrink(exe, case, sig):
     """a smaller input that fails in the same way (same signature: kind and normalised message)"""
     def fails(c):
-        i = run_impl(exe, [c])[0]
         m = run_model([c])[0] if modelled(c) else None
+        if c["op"] == "watchfiles":
+            mr = vlib.res_of(m)
+            if not (isinstance(mr, dict) and "observed" in mr):
+                return False
+            c = dict(c, expect=mr["observed"], limit_ms=2000)
+        i = run_impl(exe, [c])[0]
         adm = None
         qs, idx = judge_cases([c], [i])
         if qs:
@@ -406,6 +569,12 @@ def shrink(exe, case, sig):
                 return c2
             items = list(zip(cur["contents"][1:], cur["docs"][1:]))
             cur = with_items(vlib.ddmin(items, lambda its: fails(with_items(its))))
+        elif case["op"] in ("watchfiles", "endpoint", "k8s") and len(cur["steps"]) > 1:
+            def with_steps(ss):
+                c2 = dict(cur, steps=ss)
+                c2.pop("expect", None)
+                return c2
+            cur = with_steps(vlib.ddmin(cur["steps"], lambda ss: fails(with_steps(ss))))
         elif case["op"] == "rulehist" and len(cur["steps"]) > 1:
             st = vlib.ddmin(cur["steps"], lambda ss: fails(dict(cur, steps=ss)))
             cur = dict(cur, steps=st)
@@ -493,6 +662,14 @@ def build_cases(R, exe):
     described = [(label, t, d) for (label, t), d in zip(texts, desc["docs"])]
     streams["redis credentials file"] = G.creds_cases(rng2, described, quick)
     streams["rule file histories"] = lambda: G.hist_grid() + [G.gen_hist(rng2) for _ in range(150 if quick else 4000)]
+    # a generator of their own again for the streams of the third round
+    rng3 = random.Random(R.seed * 104729 + 23)
+    streams["watcher histories"] = lambda: G.watchfiles_grid() + [
+        G.gen_watchfiles(rng3) for _ in range(25 if quick else 300)]
+    streams["remote transport damage"] = lambda: G.transport_grid(mat)
+    streams["rule set endpoint polls"] = lambda: G.endpoint_grid() + [
+        G.gen_endpoint(rng3) for _ in range(60 if quick else 2000)]
+    streams["RuleSet resources"] = lambda: G.k8s_grid() + [G.gen_k8s(rng3) for _ in range(25 if quick else 300)]
     return streams, mat
 
 
@@ -543,7 +720,8 @@ def confirm_crashes(exe, cases, impl, limit=40):
         alone = run_impl(exe, [c])[0]
         if isinstance(alone, dict) and "crash" in alone:
             alone["confirmed_alone"] = True
-            alone["head"] = crash_head(exe, c) if n <= 6 else ""
+            # the beginning of the trace names the panic; the end (which is all run_cases keeps) does not
+            alone["head"] = crash_head(exe, c) if (n <= 6 or c.get("op") == "k8s") else ""
             impl[k] = alone
         else:
             UNATTRIBUTED.append({"case": slim(c), "died_with": str(i.get("crash"))[-600:], "alone": strip(alone)})
@@ -551,6 +729,7 @@ def confirm_crashes(exe, cases, impl, limit=40):
 
 
 def evaluate(R, exe, cases, fill_expectations=True):
+    """-> cases (sweeps expanded into one case per offset), implementation answers, model answers, judgements"""
     mcases = [c for c in cases if modelled(c)]
     model_of = {}
     for c, m in zip(mcases, run_model(mcases)):
@@ -560,12 +739,36 @@ def evaluate(R, exe, cases, fill_expectations=True):
             mr = vlib.res_of(m)
             if isinstance(mr, dict) and "states" in mr:
                 c["expect_states"] = mr["states"]
-    impl = run_impl(exe, cases)
+        if c["op"] == "watchfiles" and fill_expectations:
+            mr = vlib.res_of(m)
+            if isinstance(mr, dict) and "observed" in mr:
+                c["expect"] = mr["observed"]
+    if cases and all(c.get("op") in WAITING_OPS for c in cases):
+        impl = run_impl_side_by_side(exe, cases)
+    else:
+        impl = run_impl(exe, cases)
     retry_starved(exe, cases, impl)
     confirm_crashes(exe, cases, impl)
+    model = [model_of.get(id(c)) for c in cases]
+    if len(cases) > 1:
+        # what depends on the timing of fsnotify / the informer is run once more, alone and with the long time limit,
+        # before it is believed; once two histories have failed again that way the matter is settled
+        confirmed = reruns = 0
+        for k, c in enumerate(cases):
+            if confirmed >= 2 or reruns >= 12:
+                break
+            if c.get("op") in WAITING_OPS and not crashed(impl[k]) and verdict(c, impl[k], model[k], None) is not None:
+                again = run_impl(exe, [dict(c, limit_ms=12000)])[0]
+                reruns += 1
+                if isinstance(again, dict):
+                    again["rerun_alone"] = True
+                impl[k] = again
+                if verdict(c, again, model[k], None) is not None:
+                    confirmed += 1
+    cases, impl, model = expand_sweeps(cases, impl, model)
     qs, idx = judge_cases(cases, impl)
     adm = collect_judgements(idx, run_model(qs))
-    return impl, [model_of.get(id(c)) for c in cases], adm
+    return cases, impl, model, adm
 
 
 def run(R):
@@ -590,6 +793,10 @@ def run(R):
     events = collections.Counter()
     cred_classes = collections.Counter()
     hist_steps = collections.Counter()
+    watch_ops = collections.Counter()
+    watch_probes = collections.Counter()
+    polls_hist = collections.Counter()
+    k8s_hist = collections.Counter()
     hist_kept = 0
     nontriv = set()
     bad = []
@@ -598,9 +805,11 @@ def run(R):
     samples, seen = [], set()
     # one stream at a time: the cases carry whole files, all of them at once would not fit comfortably in memory
     for name in list(streams):
+        t_stream = time.time()
         cases = streams[name]() if callable(streams[name]) else streams[name]
         streams[name] = None
-        impl, model, adm = evaluate(R, exe, cases)
+        cases, impl, model, adm = evaluate(R, exe, cases)
+        per_stream[name]["seconds"] = round(time.time() - t_stream, 1)
         total += len(cases)
         per_stream[name]["cases"] = len(cases)
         for k, (c, i, m) in enumerate(zip(cases, impl, model)):
@@ -634,6 +843,18 @@ def run(R):
                     # a refusal with rules of earlier steps in force: the lookups had something to lose
                     if o == "error" and any(a not in ("-", "panic") for a in i["answers"][n]):
                         hist_kept += 1
+            if c["op"] == "watchfiles" and isinstance(i, dict):
+                for st, obs in zip(c["steps"], i.get("observed", [])):
+                    watch_ops[st["do"]] += 1
+                    for o2 in obs:
+                        watch_probes[o2] += 1
+            if c["op"] == "endpoint" and isinstance(i, dict):
+                for st, o2 in zip(c["steps"], i.get("polls", [])):
+                    polls_hist[f"{st.get('damage') or ((st.get('resp') or {}).get('kind') or 'prefix')}:{o2}"] += 1
+            if c["op"] == "k8s":
+                for st in c["steps"]:
+                    k8s_hist["activeIn=" + json.dumps(st["obj"].get("active_in"))] += 1
+                    k8s_hist["patch=" + ("unreachable" if c.get("unreachable") else ",".join(st.get("patch") or ["200"]))] += 1
             if isinstance(adm.get(k), dict):
                 judged += len(adm[k])
             elif k in adm:
@@ -661,12 +882,21 @@ def run(R):
                 "contents of the redis cache's credentials file (bytes + what generic YAML decoding finds in them) read "
                 "by the real fileCredentials, reloaded directly or by the real watcher, the real AuthCredentialsFn asked "
                 "after each; a history of rule files of three sources under the real provider, processor, factory and "
-                "repository with lookups for the routes of all rules after every step. "
+                "repository with lookups for the routes of all rules after every step; a history of real file "
+                "operations (write, truncate, rename-over, remove, re-create, move away / back, chmod, directory "
+                "removed / re-created, further registrations) on several files watched by the real secrets watcher, a "
+                "change of every file after every operation; one fetch of a remote document (key set, introspection "
+                "response, OAuth2 metadata document, identity information, authorizer / contextualizer / token endpoint "
+                "answer) by the real mechanism with the response damaged below HTTP at one offset; a history of polls of "
+                "a rule set endpoint by the real http_endpoint provider; a history of RuleSet resource events for the "
+                "real kubernetes provider (client-go informer and REST client against a scripted API server) with any "
+                "status.activeIn and any answer to the status PATCH. "
                 "Non-trivial = the file has at least one complete block or is a truncation, the document has at "
                 "least one rule (or is a non-empty damaged text), the script contains a panic or real key material, "
                 "the remote input is not the valid one, any raw request, a credentials history with at least one "
-                "reload, a rule file history with at least one step that is not a well-formed rule set; distinct by "
-                "hash of the case",
+                "reload, a rule file history with at least one step that is not a well-formed rule set, a watcher history "
+                "with an operation other than a write, a poll history with a damaged / refused / missing response, a "
+                "resource history with an activeIn or PATCH answer other than the usual; distinct by hash of the case",
         "streams": {n: dict(cnt) for n, cnt in per_stream.items()},
         "model_reasons_for_rejection": dict(reasons), "material_consumer_outcomes": dict(consumers),
         "material_complete_blocks_histogram": {str(k): v for k, v in sorted(blocks_hist.items())},
@@ -675,13 +905,19 @@ def run(R):
         "credentials_document_class_and_outcome": dict(cred_classes),
         "rule_history_steps_by_outcome_and_stage": dict(hist_steps),
         "rule_history_refusals_with_rules_in_force": hist_kept,
+        "watched_file_operations": dict(watch_ops), "watched_file_probes_by_observation": dict(watch_probes),
+        "endpoint_polls_by_response_and_outcome": dict(polls_hist), "ruleset_resource_events": dict(k8s_hist),
         "corpus_cases": len(corpus), "samples": samples, "exhaustive": False,
         "small_scope": "every named key store scenario x every consumer; every byte prefix of the listed stores x "
                        "every consumer; every confused value x every key of a step the factory reads; every scopes "
                        "shape; every byte prefix of a rule set text, of the signed token and of every valid remote "
                        "response; every named class and every byte prefix of five valid credentials files; every kind "
                        "of refused rule file change (decoding, version, factory, path expression, wildcard names, path "
-                       "of another source) x every source x update (all / one / none of its rules kept) and creation",
+                       "of another source) x every source x update (all / one / none of its rules kept) and creation; "
+                       "every way of taking a watched file away x each of three files; every byte offset of every "
+                       "remote document x {announced length not reached, chunked transfer broken off, shorter length "
+                       "announced, connection reset}; every byte offset of a polled rule set x the same; every listed "
+                       "status.activeIn and every listed answer to the status PATCH",
     })
     R.assumptions += [
         "x509 path validation, PEM / DER / YAML / JSON / JOSE / CEL parsing are foreign code: the model takes their "
@@ -701,6 +937,19 @@ def run(R):
         "goroutine scheduling and fsnotify event delivery are not modelled; the runs against the real watcher / "
         "provider wait for the expected effect (limit 12 s per step)",
         "key material of the pool is generated with crypto/rand once (committed); outcomes do not depend on it",
+        "fsnotify (inotify) semantics are foreign: a watch is bound to the file that is at the path when it is "
+        "registered and is dropped when that file is removed, replaced by a rename or moved (modelled: FileOp.fileRemoved "
+        "/ fileReplaced); validated by the runs against the real watcher",
+        "the order in which the watcher loop gets to a Remove event relative to a re-creation of the file is not "
+        "modelled as a race: histories put a change of every file between two operations, so the event has been "
+        "handled before the file is back (rename-over = a file is there when the event is handled)",
+        "HTTP framing is net/http's: a body that ends before the announced length / the last chunk, or a reset "
+        "connection, reaches heimdall as a read error after a prefix of the body (modelled: Transfer.brokenOff); the "
+        "reset is injected on the client's side of the connection, below net/http's transport",
+        "a polled rule set is identified with the list of its rule ids (the provider compares SHA-256 hashes); the "
+        "generator never produces two different documents with the same ids",
+        "client-go (informer, REST client) is foreign: that a handler panic ends the process (HandleCrash re-panics) is "
+        "observed on the real informer, not modelled beyond 'nothing recovers on that goroutine'",
     ]
 
     report(R, exe, bad)
@@ -709,6 +958,19 @@ def run(R):
         R.violation("the stream 'rule file histories' no longer contains a change that is refused when its routes are "
                     "inserted into the routing tree while rules are in force (generator out of date?): "
                     + json.dumps(dict(hist_steps)), {"steps": dict(hist_steps)}, no_input=True)
+    found_in = {c["op"] for c, _, _, _ in bad}      # a stream with findings is not "vacuous", it is failing
+    if "watchfiles" in found_in:
+        watch_probes = None
+    if "endpoint" in found_in:
+        polls_hist = None
+    if watch_probes and not (watch_probes.get("silent") and watch_probes.get("delivered") and watch_probes.get("absent")):
+        R.violation("the stream 'watcher histories' no longer observes all of delivered / silent / absent (generator or "
+                    "harness out of date?): " + json.dumps(dict(watch_probes)), {"probes": dict(watch_probes)},
+                    no_input=True)
+    if polls_hist and not any(k.endswith(":kept") and k.split(":")[0] in ("cl-short", "chunked-short", "reset")
+                              for k in polls_hist):
+        R.violation("the stream 'rule set endpoint polls' contains no partially received rule set that the provider "
+                    "left alone: " + json.dumps(dict(polls_hist)), {"polls": dict(polls_hist)}, no_input=True)
     if UNATTRIBUTED:
         R.violation(f"the harness process died {len(UNATTRIBUTED)} time(s) while working on a case that does not "
                     "kill it when run alone (a goroutine of an earlier case?)", {"deaths": UNATTRIBUTED[:5]},
@@ -723,6 +985,11 @@ def run(R):
             what = ("the recover layer read off the source (lean/HeimdallModel/Gen/LoaderGuards.lean) is no longer the "
                     "one the theorems assume (c19_gen_recover_layer): a goroutine handling reloadable input or "
                     "requests lost its recover")
+        if "c19_gen_watcher_loop_never_leaves" in names:
+            what = ("the event loop of the secrets watcher (startWatching) can be left by something else than the two "
+                    "'channel closed' returns (lean/HeimdallModel/Gen/LoaderGuards.lean: watcherLoopExits is not empty; "
+                    "c19_gen_watcher_loop_never_leaves, c19_watcher_survives_iff): whatever takes that exit stops the "
+                    "watcher for ALL watched files")
         R.violation(what + ": " + "; ".join(R.lean["failed"])[:600],
                     {"lean_log": R.lean["log"], "failed": R.lean["failed"], "theorems": names}, no_input=True)
 
@@ -752,11 +1019,14 @@ def signature(c, i, v):
     if kind == "crash" and isinstance(i, dict):
         text = str(i.get("head") or "").replace(" | ", "\n") + "\n" + str(i.get("crash") or i.get("panic") or "")
         mt = re.search(r"^(panic: .*|fatal error: .*)$", text, re.M)
-        detail = mt.group(1) if mt else "fatal error: stack overflow"
+        detail = mt.group(1).replace(" [recovered]", "") if mt else (
+            "fatal error: stack overflow" if c["op"] in ("material", "watch") else "the process died")
     if c["op"] == "rulehist":
         detail = re.split(r" of step|, step| for ", detail)[0]      # not the step, the file, the probe
     elif c["op"] == "creds":
         detail = detail.split("(")[0]
+    elif c["op"] == "watchfiles":
+        detail = re.sub(r"\('\w+'( of watched file \d+)?\)", "(an operation)", detail)
     detail = re.sub(r"[0-9a-f]{8,}|\d+", "#", detail)[:90]
     part = ""
     if kind == "model":
@@ -775,7 +1045,7 @@ def report(R, exe, bad):
         group.sort(key=lambda t: len(json.dumps(slim(t[0]))))
         c, i, m, (what, concrete, kind) = group[0]
         sc = shrink(exe, c, sig) if concrete else c
-        si, sm, sadm = evaluate(R, exe, [sc])
+        _, si, sm, sadm = evaluate(R, exe, [sc])
         sv = verdict(sc, si[0], sm[0], sadm.get(0))
         if sv is None or sv[2] != kind:
             sc, si, sm, sv = c, [i], [m], (what, concrete, kind)
@@ -784,7 +1054,7 @@ def report(R, exe, bad):
         if crashed(si[0]) and "crash" in si[0]:
             head = crash_head(exe, sc)      # the case once more, alone in a fresh process
             what += ": " + head
-        hint = HINT if (sm[0] is not None and like_original(sc, si[0], sm[0])) else None
+        hint = hint_for(sc, si[0], sm[0]) if sm[0] is not None else None
         if sm[0] is not None and like_pointer(sc, si[0], sm[0]):
             hint = HINT_PTR
         payload = {"case": slim(sc), "impl": strip(si[0]) if isinstance(si[0], dict) else si[0],
@@ -816,7 +1086,15 @@ def replay(R, path):
     if c["op"] == "remote":
         mat = run_impl(exe, [G.material_request()])[0]
         c = resolve_corpus([c], mat)[0]
-    impl, model, adm = evaluate(R, exe, [c])
+    cs, impl, model, adm = evaluate(R, exe, [c])
+    if len(cs) == 1:
+        c = cs[0]
+    else:
+        # a sweep: report the first offset that fails, all of them otherwise
+        bad = [k for k in range(len(cs)) if verdict(cs[k], impl[k], model[k], adm.get(k)) is not None]
+        print(f"sweep over {len(cs)} offsets, {len(bad)} of them fail")
+        k = bad[0] if bad else 0
+        c, impl, model, adm = cs[k], [impl[k]], [model[k]], {0: adm.get(k)}
     if crashed(impl[0]) and "crash" in impl[0]:
         print("crash:", crash_head(exe, c))
     print("impl :", json.dumps(strip(impl[0]) if isinstance(impl[0], dict) else impl[0])[:2000])
